@@ -11,7 +11,7 @@ def J(func, tag, entry, extra=None, unwind=40, **kw):
 
 def entries(tier):
     if tier == "quick":
-        return [ent(1, 2, 2, 0), ent(0, 2, 0, 0), ent(1, 0, 0, 0), ent(0, 1, 0, 1)]
+        return [ent(1, 2, 2, 0), ent(0, 2, 0, 0), ent(1, 0, 0, 0), ent(0, 1, 0, 1), ent(0, 0, 0, 1)]
     out = []
     for a in (0, 1):
         for nl in (0, 1, 2):
@@ -33,7 +33,7 @@ def jobs_x(tier):
         for uri in (0, 1):
             out.append(J("RuleLink", "u%d" % uri, e, {"uri": uri}))
     shapes = range(16)
-    for e in (es if tier != "quick" else [ent(1, 2, 2, 0), ent(0, 2, 0, 0), ent(1, 0, 1, 1)]):
+    for e in (es if tier != "quick" else [ent(1, 2, 2, 0), ent(0, 2, 0, 0), ent(1, 0, 1, 1), ent(0, 0, 0, 1)]):
         for s in (shapes if (tier != "quick" or e["nlabels"] + e["nann"] >= 2) else [0, 15]):
             out.append(J("Label", "s%d" % s, e, {"shape": s}))
             if e["alerting"]:
@@ -45,7 +45,7 @@ BLOCKS = ["aggregate", "annotation", "label", "reject", "link", "name", "for", "
 
 def jobs_v(tier):
     out = []
-    es = [ent(1, 1, 1, 0), ent(0, 1, 0, 0)] if tier == "quick" else [ent(1, 2, 2, 1), ent(1, 0, 0, 0), ent(0, 2, 0, 0), ent(0, 0, 0, 1)]
+    es = [ent(1, 1, 1, 0), ent(0, 1, 0, 0), ent(0, 0, 0, 1)] if tier == "quick" else [ent(1, 2, 2, 1), ent(1, 0, 0, 0), ent(0, 2, 0, 0), ent(0, 0, 0, 1)]
     for bi, b in enumerate(BLOCKS):
         for e in es:
             out.append(J("ParseRule", b, e, {"block": bi, "nblocks": 1, "regexvalidity": 0}))
@@ -60,9 +60,9 @@ def jobs_m(tier):
     for e in ([ent(1, 1, 1, 0), ent(0, 1, 0, 1)] if tier == "quick" else [ent(1, 2, 2, 1), ent(1, 0, 0, 0), ent(0, 2, 0, 0), ent(0, 0, 0, 1)]):
         for s in shapes:
             for ign in (0, 1):
-                out.append(J("MatchBlock", "s%d-i%d" % (s, ign), e, {"shape": s, "ignore": ign, "regexvalidity": 1}))
+                out.append(J("MatchBlock", "s%d-i%d" % (s, ign), e, {"shape": s, "ignore": ign, "regexvalidity": 1, "a1": 1}))
     for n in (0, 1, 2):
-        out.append({"name": "Lists-n%d" % n, "func": "VerifHarness_PatternLists", "params": {"n": n, "regexvalidity": 1}, "unwind": 30, "reach": ["end"]})
+        out.append({"name": "Lists-n%d" % n, "func": "VerifHarness_PatternLists", "params": {"n": n, "regexvalidity": 1, "a1": 1}, "unwind": 30, "reach": ["end"]})
     return out
 
 PROP = {
